@@ -359,6 +359,9 @@ var c16Numbers = []sarg{
 var c16Others = []sarg{
 	{src: "true", class: "boolean", b: true}, {src: "false", class: "boolean", b: false},
 	{src: `"txt"`, class: "string", s: "txt"}, {src: `""`, class: "string", s: ""}, {src: `"Ünï 日本"`, class: "string", s: "Ünï 日本"}, {src: `"12"`, class: "string", s: "12"},
+	// strings that LOOK like a boolean or a number: a string all the same (a bool or numeric parameter refuses them)
+	{src: `"true"`, class: "string", s: "true"}, {src: `"1"`, class: "string", s: "1"}, {src: `"t"`, class: "string", s: "t"}, {src: `"FALSE"`, class: "string", s: "FALSE"},
+	{src: `"0"`, class: "string", s: "0"}, {src: `"1.5"`, class: "string", s: "1.5"}, {src: `"False"`, class: "string", s: "False"},
 }
 
 func intRange(bits int) (float64, float64) {
